@@ -38,6 +38,19 @@ def plan_dates(tier, seed, prop, n_dates, lo=None, hi=None):
     return out
 
 
+EARLY_LO = datetime.date(2005, 1, 1)
+
+
+def early_dates(tier, seed, prop, n_quick):
+    """First days of strata between 2005-01-01 and 2014-12-31 (many dated rules end in that period).
+    Before 2015 the system is not complete (C08 starts in 2015), so the node universe of these dates is
+    the screened one of env.base_targets and a case whose plain simulation fails is outside the domain."""
+    strata = dates.strata(EARLY_LO, dates.SUPPORTED_START - datetime.timedelta(days=1))
+    if tier == "thorough":
+        return [s[0] for s in strata]
+    return [s[0] for s in dates.pick(strata, n_quick, seed, prop, "early")]
+
+
 def shard(desc):
     mod = importlib.import_module(desc["module"])
     sh = core.Shard()
@@ -50,10 +63,35 @@ def shard(desc):
         if hasattr(mod, "prepare"):
             mod.prepare(date, ctx, sh)
 
-        def oracle(pop, date=date, ctx=ctx):
+        early = date < dates.SUPPORTED_START
+        if early:
+            from . import env
+
+            if not env.all_nodes(date):
+                sh.classes["early-date-without-computable-nodes"] += 1
+                continue
+
+        def oracle(pop, date=date, ctx=ctx, early=early):
             sh.classes.update(pop.classes())
             sh.classes.update(f"arch:{a}" for a in pop.archetypes)
-            return mod.oracle(pop, date, sh, ctx)
+            if not early:
+                return mod.oracle(pop, date, sh, ctx)
+            sh.classes["early-date-case(2005-2014)"] += 1
+            try:
+                return mod.oracle(pop, date, sh, ctx)
+            except Exception:
+                # domain guard: an incomplete year may lack a parameter in some branch; if the plain
+                # simulation of this population fails, the case is outside the domain, otherwise the
+                # exception is the check's own and propagates
+                from . import env
+
+                df = pop.df if hasattr(pop, "df") else pop[0].df
+                try:
+                    env.simulate(df, date, targets=env.all_nodes(date))
+                except Exception:  # noqa: BLE001
+                    sh.classes["early-date-case-outside-domain(plain simulation raises)"] += 1
+                    return []
+                raise
 
         strat = mod.strategy(date, ctx) if hasattr(mod, "strategy") else popgen.populations(date, **gen)
         core.explore(strat, oracle, n=desc["n"],
@@ -72,6 +110,8 @@ def run(modname, tier, seed, t0, extra_descs=None, min_evaluations=20, min_nontr
     lo = getattr(mod, "DATE_LO", None)
     hi = getattr(mod, "DATE_HI", None)
     ds = [d.isoformat() for d in plan_dates(tier, seed, mod.PROP, n_dates, lo, hi)]
+    if getattr(mod, "EARLY", 0):
+        ds += [d.isoformat() for d in early_dates(tier, seed, mod.PROP, mod.EARLY) if d.isoformat() not in ds]
     nshards = min(core.NPROC * (2 if tier == "thorough" else 1), len(ds))
     descs = []
     for i in range(nshards):
